@@ -33,7 +33,7 @@ ASSUMPTIONS = [
     "kek.real is a test against an independent Python reference (hmac/hashlib, affine-coordinate NIST curves), calibrated on the Windows vectors; it supports, not proves, the 'independent implementation' clause",
 ]
 RULE = ("4 hashes x {nonce, DH, ECDH_P256, ECDH_P384, ECDH_P521}; envelope positions on the edge lattice with conforming covering seed envelopes; DH groups p in {251, 257, 65521, 65537, 2^31-1, "
-        "RFC 5114 2048/256 (real)} with key_length paddings len(p)..len(p)+6 so that leading zero bytes are frequent; ephemeral keys random plus forced leading-zero shared secrets; hostile public "
+        "RFC 5114 2048/256, the same padded to 260 bytes, MODP-2048/1024 with g = 2 (real crypto)} with key_length paddings len(p)..len(p)+6 so that leading zero bytes are frequent; ephemeral keys random plus forced leading-zero shared secrets; hostile public "
         "keys (p = 0, short key_length, bad magic, truncations, unknown algorithms); non-trivial = a KEK or a distinct error class was produced; distinct = distinct canonical case text")
 
 LABEL = "KDS service\0".encode("utf-16-le")
@@ -577,6 +577,20 @@ RFC5114_G = int("3FB32C9B73134D0B2E77506660EDBD484CA7B18F21EF205407F4793A1A0BA12
                 "5E2327CFEF98C582664B4C0F6CC41659", 16)
 
 
+MODP2048 = int("FFFFFFFFFFFFFFFFC90FDAA22168C234C4C6628B80DC1CD129024E088A67CC74020BBEA63B139B22514A08798E3404DDEF9519B3CD3A431B"
+               "302B0A6DF25F14374FE1356D6D51C245E485B576625E7EC6F44C42E9A637ED6B0BFF5CB6F406B7EDEE386BFB5A899FA5AE9F24117C4B1FE6"
+               "49286651ECE45B3DC2007CB8A163BF0598DA48361C55D39A69163FA8FD24CF5F83655D23DCA3AD961C62F356208552BB9ED529077096966D"
+               "670C354E4ABC9804F1746C08CA18217C32905E462E36CE3BE39E772C180E86039B2783A2EC07A28FB5C55DF06F4C52C9DE2BCBF695581718"
+               "3995497CEA956AE515D2261898FA051015728E5A8AACAA68FFFFFFFFFFFFFFFF", 16)   # RFC 3526 group 14 (transcribed; any modulus serves the test)
+MODP1024 = int("FFFFFFFFFFFFFFFFC90FDAA22168C234C4C6628B80DC1CD129024E088A67CC74020BBEA63B139B22514A08798E3404DDEF9519B3CD3A431B"
+               "302B0A6DF25F14374FE1356D6D51C245E485B576625E7EC6F44C42E9A637ED6B0BFF5CB6F406B7EDEE386BFB5A899FA5AE9F24117C4B1FE6"
+               "49286651ECE65381FFFFFFFFFFFFFFFF", 16)                                    # RFC 2409 group 2
+# (key_length, p, g): the RFC 5114 2048/256 group Windows uses, the same with a padded key_length (every field then has
+# leading zero bytes), MODP groups with generator 2, and small groups where leading zero bytes are the rule
+REAL_DH_GROUPS = [(256, RFC5114_P, RFC5114_G), (260, RFC5114_P, RFC5114_G), (256, MODP2048, 2), (128, MODP1024, 2),
+                  (2, 65521, 17), (5, 65521, 17), (4, 2 ** 31 - 1, 7), (1, 251, 6)]
+
+
 def real_cases(ctx: Ctx, n):
     """(hid, mode, seed, sec_alg, priv_bits, public structure builder) for the implementation with real crypto"""
 
@@ -588,10 +602,10 @@ def real_cases(ctx: Ctx, n):
     return out
 
 
-def _shared_leading_zero(mode, y, key_info, kl):
+def _shared_leading_zero(mode, y, key_info, kl, p=None):
     if mode == "dh":
         pub = int.from_bytes(key_info[8 + 2 * kl: 8 + 3 * kl], "big")
-        return pow(pub, y, RFC5114_P) >> (8 * 255) == 0
+        return pow(pub, y, p) >> (8 * (kl - 1)) == 0
     from cryptography.hazmat.primitives.asymmetric import ec
 
     curve = {"P256": ec.SECP256R1(), "P384": ec.SECP384R1()}[mode]
@@ -625,7 +639,7 @@ def oracles(ctx: Ctx) -> None:
                 ctx.violation("failing-input", "oracle:kek.sym.agree", {"unit": "kek.sym.agree", "input": enc(c), "why": why}, key=f"kek.sym.agree:{enc(c)[:80]}")
     stats = {"cases": 0, "leading_zero_shared": 0, "leading_zero_public": 0, "disagreements": 0}
     rk = bytes(range(16))
-    n = ctx.n(24, 400)
+    n = ctx.n(32, 640)
     for (hid, mode, seed) in real_cases(ctx, n):
         hname = HASHES[hid][0]
         l0, l1, l2 = 361, ctx.rng.randrange(32), ctx.rng.randrange(31)
@@ -635,7 +649,9 @@ def oracles(ctx: Ctx) -> None:
         if mode == "nonce":
             pub_struct = b""
         elif mode == "dh":
-            pub_struct = ref_ffk([256, RFC5114_P, RFC5114_G, pow(RFC5114_G, y, RFC5114_P)])
+            groups = REAL_DH_GROUPS if ctx.thorough else REAL_DH_GROUPS[:2] + REAL_DH_GROUPS[4:6]
+            gkl, gp, gg = groups[(stats["cases"] // 2) % len(groups)]
+            pub_struct = ref_ffk([gkl, gp, gg, pow(gg, y, gp)])
         else:
             cvp = CURVES[mode]
             A = ec_mul(mode, y % cvp[5], (cvp[3], cvp[4]))
@@ -644,7 +660,7 @@ def oracles(ctx: Ctx) -> None:
         enc_env = seed_env if mode == "nonce" else mk_env(l0, l1, l2, rk, b"", pub_struct, flags=1, kdf_par=ref_kdfp(HASHES[hid][2]),
                                                           sec_alg=alg, priv=priv_bits, pub=2048)
         # encrypt side (real crypto); search a few ephemeral keys for a leading zero byte in the public value / shared secret
-        tries = 1 if mode == "nonce" else ctx.n(60, 400)
+        tries = 1 if mode == "nonce" else ctx.n(60, 600)
         best = None
         want_zero_shared = stats["cases"] % 2 == 1
         for _ in range(tries):
@@ -661,7 +677,7 @@ def oracles(ctx: Ctx) -> None:
             if want_zero_shared:
                 # the shared secret is not observable from outside: use the group private key (fast library primitives
                 # only to *find* an ephemeral key; the comparison below uses the independent reference)
-                if _shared_leading_zero(mode, y, kid.key_info, kl):
+                if _shared_leading_zero(mode, y, kid.key_info, kl, gp if mode == "dh" else None):
                     break
             elif kid.key_info[8 + (2 if mode == "dh" else 0) * kl] == 0:
                 break
@@ -683,7 +699,7 @@ def oracles(ctx: Ctx) -> None:
         else:
             x = int.from_bytes(rnd, "big")
             if mode == "dh":
-                z = pow(pow(RFC5114_G, y, RFC5114_P), x, RFC5114_P).to_bytes(256, "big")
+                z = pow(pow(gg, y, gp), x, gp).to_bytes(gkl, "big")
                 hs = "sha256"
             else:
                 z = ec_mul(mode, x, A)[0].to_bytes(CURVES[mode][6], "big")
